@@ -48,6 +48,21 @@ def authOp : Tok → String
          match authOutcomes r.chain (kindVerifies kind) with
          | [o] => s!"status={o.status} handler={if o.handlerRan then 1 else 0}"
          | os => "ambiguous " ++ " ".intercalate (os.map fun o => s!"{o.status}/{if o.handlerRan then 1 else 0}"))
+  | ["conc", svcs, method, hpath, rounds] =>
+    -- per round 4 requests with a bad token next to 4 with a good one, then 2 bad ones alone: the decision of the router model
+    -- is a function of the request alone (no state), so every one of them is rejected
+    (match bytesOfHex hpath, rounds.toNat? with
+     | some pb, some n =>
+       let path := strOfBytes pb
+       let names := svcs.splitOn ","
+       let table := (Chf.Gen.runtimeRoutes.find? (·.1 == names)).map (·.2) |>.getD []
+       let router := newRouter Chf.Gen.caseFacts (routesOfTable table) names
+       (match router.find? (fun r => r.method == method && r.path == path) with
+        | none => "no-route"
+        | some r =>
+          let rejected := (authOutcomes r.chain false).all fun o => o.status == 401 && !o.handlerRan
+          s!"conc bad={6 * n} accepted={if rejected then 0 else 6 * n}")
+     | _, _ => "bad-op")
   | ["end"] => "ok"
   | _ => "bad-op"
 
